@@ -647,8 +647,8 @@ Program generate(vf::Tape &t) {
     p.yp = YP[t.below(4)]; p.sp = SP[t.below(4)];
     p.nslots = 1 + (int) t.below(4);
     p.seed = t.u16();
-    int max_ops = p.N == 8 ? 3 : 6;      // <= 24 operations per program
-    bool rot0 = t.below(2) == 1, rot1 = t.below(4) == 3, crl_last = t.below(4) == 3;
+    int max_ops = p.N == 8 ? 3 : p.N == 4 ? 6 : 10;      // <= 24 operations per program
+    bool rot0 = t.below(2) == 1, rot1 = t.below(4) == 3, crl_last = t.below(2) == 1;
     // a "theme" biases all threads toward the same credential kind so that they contend on the same structure
     int theme = (int) t.below(4);        // 0 = mixed
     for (int i = 0; i < p.N; i++) {
@@ -656,7 +656,7 @@ Program generate(vf::Tape &t) {
         bool rot = (i == 0 && rot0) || (i == 1 && rot1), crl = (i == p.N - 1 && crl_last);
         for (int k = 0; k < n; k++) {
             Op o; unsigned r = (unsigned) t.below(16);
-            o.kind = r < 4 ? OP_CONNECT : r < 10 ? OP_RESUME : r < 11 ? OP_CLOSE_HELD : r < 12 ? OP_DATA_HELD : r < 15 ? (rot ? OP_ROTATE : OP_RESUME) : (crl ? OP_CRL : rot ? OP_ROTATE : OP_CONNECT);
+            o.kind = r < 3 ? OP_CONNECT : r < 10 ? OP_RESUME : r < 11 ? OP_CLOSE_HELD : r < 12 ? OP_DATA_HELD : r < 14 ? (rot ? OP_ROTATE : OP_RESUME) : (crl ? OP_CRL : rot ? OP_ROTATE : OP_CONNECT);
             o.mode = (int) t.below(3); if (theme && t.below(4) != 3) o.mode = theme - 1;
             o.suite = (int) t.below(5); o.curve = (int) t.below(3); o.slot = (int) t.below((uint64_t) p.nslots);
             o.hold = t.below(4) == 3; o.clone = t.coin(); o.poison = t.below(8) == 7; o.srv_first = t.coin(); o.delete_old = t.below(6) != 5;
@@ -683,7 +683,7 @@ std::string describe(const Program &p) {
 }
 
 // One execution of the program under one yield seed.  Throws vf::Fail (main thread) on an oracle violation.
-void run_once(const Program &p, int run_idx, uint64_t yield_seed, const std::string &desc0, RunStats &st, bool verbose) {
+void run_once(const Program &p, int run_idx, uint64_t yield_seed, const std::string &desc0, RunStats &st, bool verbose, const vf::Ctx &ctx) {
     std::string desc = desc0 + fmt(" | run %d yield_seed=%llu", run_idx, (unsigned long long) yield_seed);
     int raw0 = g_nraw.load(std::memory_order_relaxed);
     pthread_barrier_t start; pthread_barrier_init(&start, NULL, (unsigned) p.N);
@@ -735,7 +735,8 @@ void run_once(const Program &p, int run_idx, uint64_t yield_seed, const std::str
     for (int i = raw0; i < raw1; i++) {
         Report r = render(g_raw[i]);
         fprintf(stderr, "[c20] %s -> signature %s\n%s", desc.c_str(), r.sig.c_str(), r.text.c_str());
-        if (first_sig.empty() || (r.mx && first_sig.compare(0, 5, "tsan:") != 0)) { first_sig = r.sig; first_text = r.text; }
+        // report the first signature that is not a known finding (ThreadSanitizer reports each race only once per process)
+        if (first_sig.empty() || (ctx.is_known(first_sig) && !ctx.is_known(r.sig))) { first_sig = r.sig; first_text = r.text; }
     }
     if (!first_sig.empty()) { st.counts["tsan-reports"] += (uint64_t) (raw1 - raw0); throw vf::Fail{ first_sig, first_text + "  " + desc }; }
     // ---- oracle 3 and the rest
@@ -769,7 +770,7 @@ void prop(vf::Tape &t, vf::Ctx &c) {
     for (int r = 0; r < runs; r++) {
         uint64_t ys = r == 0 && p.yp == 0 && p.sp == 0 ? 0 : (p.seed * 2654435761ULL + (uint64_t) r * 40503 + 1);
         Program q = p; if (r >= p.nseeds) { q.yp = 32 + 16 * (uint32_t) (r % 5); q.sp = 16 + 8 * (uint32_t) (r % 7); }   // replay-only extra schedules
-        run_once(q, r, ys ? ys : 0, desc, st, c.verbose);
+        run_once(q, r, ys, desc, st, c.verbose, c);
         done++;
     }
 }
